@@ -3,7 +3,31 @@ import TrackpyV.Proofs.MSD
 # C17 — MSD functions compute the defined statistic, gaps and units included
 
 Theorems about `Model/MSD.lean` (the mirror of `trackpy/motion.py` msd/_msd_fft/_msd_gaps/imsd/emsd
-with repo-fixes/C17-msd-order-nan-emsd-weights.patch applied).
+with repo-fixes/C17-msd-order-nan-emsd-weights.patch applied; the unrepaired code violates the
+property in three ways, each replayed from corpus/C17 by the harness).  Exact rationals, NaN = `none`.
+
+* `msd_eq_def` — for ANY table with one row per frame (any length, start frame, gaps, row order) the
+  rows of `msd` are, for the lags `1 … min(max_lagtime, max frame − min frame)`: index = lag,
+  `lagt = lag/fps`, per coordinate the mean and the mean square of `(x_b − x_a)·mpp` over ALL pairs
+  of observations `lag` frames apart, `none` exactly where no pair exists, `msd` = their sum over the
+  coordinates.  Both algorithms are covered: the contiguous one (`fft_sums`, `fftRow_eq`: the
+  cumsum / `D_sum` / `S1 − 2·S2` formulation is `Σ (r_{i+m} − r_i)²`, with `np.fft` replaced by the
+  autocorrelation sum it is trusted to compute; `contig_of_span`: `max − min + 1 = len` makes sorted
+  frames consecutive) and the gaps one (`gaps_sum_eq`, `gapsRow_eq_def`: re-indexed shifted arrays
+  = all pairs).  `head_last_mem` says what `a`, `z` are.
+* `sqDef_mpp`, `dispDef_mpp` — units: the statistic of the scaled positions is `mpp²` (`mpp`) times
+  the statistic in pixels.
+* `index_is_lag` — every output row has `1 ≤ lag ≤ max_lagtime` and `lagt = lag / fps`.
+* `msd_order_indep` — permuting the input rows does not change any column (`N` included);
+  `dispDef_perm`, `sqDef_perm`: the specification itself is order-free.
+* `imsd_eq_msd` — an `imsd` cell is the `msd` row of that particle alone.
+* `mem_contrib`, `emsd_weighted`, `emsd_none_iff` — `emsd = Σ N·v / Σ N` over exactly the particles
+  whose own `msd` has a non-NaN value at the lag; NaN iff there is none.
+
+-- FULL (not proved): `msdDef … = meanOpt (pairs.map fun (a, b) => Σ_c ((b_c − a_c)·mpp)²)`, i.e. the
+-- sum over coordinates of the per-coordinate means equals the mean over pairs of the summed squared
+-- displacement (same pair set for every coordinate).  The harness oracle computes `msd` in that
+-- second form on every case.
 -/
 namespace TrackpyV.MSD
 
@@ -168,6 +192,52 @@ theorem msd_eq_def (rows : List FullRow) (d : Nat) (mpp fps : Rat) (maxLag : Nat
       funext fun c => col_gaps rows mpp a z hnd hh hl c (i + 1)
     simp only [Function.comp, Out.stats, specRow, msdDef, hG]
     rfl
+
+/-! ## units -/
+
+theorem sum_map_mul (l : List Rat) (k : Rat) : (l.map (· * k)).sum = l.sum * k := by
+  induction l with
+  | nil => simp
+  | cons x xs ih => simp only [List.map_cons, List.sum_cons, ih]; ring
+
+theorem meanOpt_scale (l : List Rat) (k : Rat) : meanOpt (l.map (· * k)) = (meanOpt l).map (· * k) := by
+  unfold meanOpt
+  by_cases h : l.length = 0
+  · simp [h]
+  · simp only [List.length_map, h, if_false, Option.map_some, sum_map_mul]
+    congr 1; ring
+
+theorem diffs_scale (l : List Row) (k : Rat) (lag : Nat) :
+    diffs (l.map fun r => (r.1, r.2 * k)) lag = (diffs l lag).map (· * k) := by
+  unfold diffs
+  rw [List.flatMap_map, List.map_flatMap]
+  congr 1
+  funext a
+  rw [List.filter_map, List.map_map, List.map_map]
+  apply List.map_congr_left
+  intro b _
+  simp only [Function.comp]
+  ring
+
+theorem coord_scale (mpp : Rat) (c : Nat) (rows : List FullRow) :
+    coord mpp c rows = (coord 1 c rows).map fun r => (r.1, r.2 * mpp) := by
+  simp [coord, List.map_map, Function.comp_def]
+
+/-- **units**: positions are in pixels, the results in microns — the mean squared displacement of
+the scaled positions is `mpp²` times the one of the pixel positions (and `mpp` times for `<x>`) -/
+theorem sqDef_mpp (mpp : Rat) (c : Nat) (rows : List FullRow) (lag : Nat) :
+    sqDef (coord mpp c rows) lag = (sqDef (coord 1 c rows) lag).map (· * (mpp * mpp)) := by
+  unfold sqDef
+  rw [coord_scale, diffs_scale, ← meanOpt_scale, List.map_map, List.map_map]
+  congr 1
+  apply List.map_congr_left
+  intro x _
+  simp only [Function.comp, sq]; ring
+
+theorem dispDef_mpp (mpp : Rat) (c : Nat) (rows : List FullRow) (lag : Nat) :
+    dispDef (coord mpp c rows) lag = (dispDef (coord 1 c rows) lag).map (· * mpp) := by
+  unfold dispDef
+  rw [coord_scale, diffs_scale, ← meanOpt_scale]
 
 /-! ## row order -/
 
